@@ -14,7 +14,7 @@
    ordered by happens-before (program order + release/acquire edges + transitivity).  The checker
    [C17_check_log] computes happens-before with clocks along the log; it looks at nothing but the log
    (in particular not at the ghost payload of releases, and it never calls the model).
-   [Proofs.race_free_b_iff] : C17_check_log log = true <-> RaceFree log.
+   [Properties.checker_decides_race_freedom] : C17_check_log log = true <-> RaceFree log.
 
    The second observable is the list of reports of the Go race detector for a run of the real program:
    the property demands that it is empty.
